@@ -1846,3 +1846,40 @@ def copy_update(ctx, rule, modules):
     ctl = ast.parse('def f(self, k, e):\n    if (s := self.table.get(k)):\n        s = s - {e}\n        if not s:\n            del self.table[k]\ndef g(self, k, e):\n    s = self.table.get(k)\n    s = s - {e}\n    self.table[k] = s\n')
     hits = [len(copy_updates(f)) for f in ctl.body]
     R.check(hits == [1, 0] and n >= 10, rule, f'{", ".join(modules)} | looked-up containers', f'{n} functions, no update applied to a rebuilt copy only (positive control matched)', f'control {hits}')
+
+
+# ---------------------------------------------------------------------------------------------------------------------
+def total_mappers(ctx, rule, modules, floor=1):
+    """A field's display `mapper` runs inside __str__, and packets are formatted for the debug log (f-strings, evaluated at
+    every log level) before they are dispatched or sent: a mapper that is partial on the field's value range - indexing a
+    tuple / dict with the value, unpacking it with a fixed struct format - turns a legal value into an exception in front
+    of the handler, and the PDU is neither answered nor sent."""
+    R, p = ctx.r, ctx.p
+
+    def mappers(tree):
+        for d in ast.walk(tree):
+            if isinstance(d, ast.Dict):
+                for k, v in zip(d.keys, d.values):
+                    if isinstance(k, ast.Constant) and k.value == 'mapper' and isinstance(v, ast.Lambda):
+                        yield v
+
+    def partial(lam):
+        arg = lam.args.args[0].arg if lam.args.args else None
+        bound = {arg} | {x.id for c in ast.walk(lam.body) if isinstance(c, ast.comprehension) for x in ast.walk(c.target) if isinstance(x, ast.Name)}
+        return [x for x in ast.walk(lam.body) if (isinstance(x, ast.Subscript) and isinstance(x.slice, ast.Name) and x.slice.id == arg and not isinstance(x.value, ast.Name))
+                or (isinstance(x, ast.Subscript) and isinstance(x.slice, ast.Name) and x.slice.id == arg and isinstance(x.value, ast.Name) and x.value.id not in bound)
+                or (isinstance(x, ast.Call) and (dotted(x.func) or '').startswith('struct.unpack'))]
+    n = 0
+    for mn in modules:
+        m = p.modules.get(mn)
+        if m is None:
+            R.bad(rule, mn, 'anchor missing')
+            continue
+        for lam in mappers(m.tree):
+            n += 1
+            bad = partial(lam)
+            if bad:
+                R.bad(rule, f'{p.qual_of(lam)} | {norm(lam)[:60]}', f'the display mapper `{norm(lam)[:80]}` is not defined for every value of its field (`{norm(bad[0])[:40]}` raises for the others): str() of the PDU raises where it is logged, i.e. before the handler runs or the response is sent - such a request is never answered', f'{m.rel}:{lam.lineno}')
+    ctl = ast.parse("a = {'size': 1, 'mapper': lambda x: ('A', 'B')[x]}\nb = {'mapper': lambda x: ', '.join(f'{h}:{u.hex()}' for h, u in x)}\n")
+    hits = [len(partial(l)) for l in mappers(ctl)]
+    R.check(hits == [1, 0] and n >= floor, rule, f'{", ".join(modules)} | display mappers', f'{n} mapper lambdas, all total on their field (positive control matched)', f'control {hits}, {n} mappers (floor {floor})')
